@@ -676,7 +676,8 @@ fn expand_brace_range(tokens: &mut types::Tokens) {
     let mut idx: usize = 0;
     let mut buff: Vec<(usize, Vec<String>)> = Vec::new();
     for (sep, token) in tokens.iter() {
-        if !sep.is_empty() || !re.is_match(token) {
+        // (the value of an assignment is text, like a command's output in it)
+        if !sep.is_empty() || !re.is_match(token) || in_assignment_prefix(tokens, idx) {
             idx += 1;
             continue;
         }
